@@ -190,6 +190,29 @@ def check(case):
                 held.clear()
                 gc.collect()
                 continue
+            if kind == 'edit_source':
+                if backend == 'dict' and held:
+                    snap = {nm: copy.deepcopy(list(d_)) for nm, d_ in held.items()}
+                    edited = []
+                    for part in src:
+                        for dsd in part['datasets'].values():
+                            for ex_ in dsd.values():
+                                if isinstance(ex_.get('tags'), list):
+                                    ex_['tags'].append('edited-later')
+                                    edited.append(ex_['tags'])
+                    try:
+                        for nm, d_ in held.items():
+                            now = list(d_)
+                            if now != snap[nm]:
+                                raise Violation('dataset-follows-source-edit',
+                                                f'{desc}\nstep {si}: a nested value of the source was edited after the '
+                                                f'dataset {nm!r} had been built; the dataset now yields {now}\n'
+                                                f'before the edit it yielded {snap[nm]}')
+                    finally:
+                        for t in edited:
+                            t.pop()
+                    events.add('source-edited')
+                continue
             if kind == 'pickle':
                 if backend == 'json':
                     blob = pickle.dumps(db)
@@ -199,7 +222,15 @@ def check(case):
                         for f in sorted(Path(tmp).glob('part*.json')):
                             f.write_text(json.dumps({'datasets': {'ghost': {'g0': {'v': 'ghost'}}}}))
                         events.add('pickled-files-changed')
-                    db = pickle.loads(blob)
+                    elif len(req) > 1 and req[1] == 'files_gone':
+                        for f in sorted(Path(tmp).glob('part*.json')):
+                            f.unlink()
+                        events.add('pickled-files-gone')
+                    try:
+                        db = pickle.loads(blob)
+                    except Exception as e:
+                        raise Violation('pickled-database-broken', f'{desc}\nstep {si}: the pickle of a loaded '
+                                        f'database could not be loaded ({req[1:]}): {type(e).__name__}: {str(e)[:200]}')
                     held.clear()  # a new database object has its own memo
                     events.add('pickled')
                 continue
@@ -350,9 +381,9 @@ def st_case(draw):
     for _ in range(draw(st.integers(1, 7))):
         r = draw(st.integers(0, 9))
         if r == 0:
-            reqs.append(['gc'])
+            reqs.append(['gc'] if draw(st.booleans()) else ['edit_source'])
         elif r == 1:
-            reqs.append(['pickle'] + (['files_change'] if draw(st.booleans()) else []))
+            reqs.append(['pickle'] + draw(st.sampled_from([[], ['files_change'], ['files_gone']])))
         elif r <= 3:
             reqs.append(['get', draw(st.lists(st.sampled_from(names_all[:-1]), min_size=1, max_size=3)),
                          draw(st.sampled_from(['list', 'tuple', 'gen', 'iter', 'map']))])
